@@ -66,24 +66,34 @@ TRI = dict(
 )
 
 _TF = ["rotate90cw", "rotate90acw", "rotate180", "flipv", "fliph", "flipmd", "flipod"]
+_SPENUMS = {"ROTATE90CW": ("SepTransform.rotate90cw", "SepTransform"), "ROTATE90ACW": ("SepTransform.rotate90acw", "SepTransform"),
+            "ROTATE180": ("SepTransform.rotate180", "SepTransform"), "FLIPV": ("SepTransform.flipv", "SepTransform"),
+            "FLIPH": ("SepTransform.fliph", "SepTransform"), "FLIPMD": ("SepTransform.flipmd", "SepTransform"),
+            "FLIPOD": ("SepTransform.flipod", "SepTransform"),
+            "CENTRE": ("GapType.centre", "GapType"), "BDRY": ("GapType.bdry", "GapType"),
+            "NONE": ("SepType.none", "SepType"), "EQ": ("SepType.eq", "SepType"), "INEQ": ("SepType.ineq", "SepType"),
+            "XDIM": ("Dim.x", "Dim"), "YDIM": ("Dim.y", "Dim")}
+_SPENUMS.update({n.upper(): ("SepDir." + n, "SepDir") for n in _SD})
+_SPM = ["addSep", "roundGapsUpAbs", "isVerticalCardinal", "isHorizontalCardinal", "isVAlign", "isHAlign", "isCardinal", "hasConstraintInDim"]
 SEPPAIR = dict(
-    src="cola/libdialect/constraints.cpp",
     ns="AdaptaVerif.Gen.SepPair",
     out="lean/AdaptaVerif/Gen/SepPair.lean",
     imports=["AdaptaVerif.Model.Sep"],
-    opens=["AdaptaVerif.Model.Sep (SepTransform SepType GapType)", "AdaptaVerif.Num (SZ)"],
-    functions=["transform"],
-    filters={"transform": "SepPair::transform"},
-    types={"SepTransform": "SepTransform", "SepType": "SepType", "GapType": "GapType", "double": "SZ"},
-    enums={"ROTATE90CW": ("SepTransform.rotate90cw", "SepTransform"), "ROTATE90ACW": ("SepTransform.rotate90acw", "SepTransform"),
-           "ROTATE180": ("SepTransform.rotate180", "SepTransform"), "FLIPV": ("SepTransform.flipv", "SepTransform"),
-           "FLIPH": ("SepTransform.fliph", "SepTransform"), "FLIPMD": ("SepTransform.flipmd", "SepTransform"),
-           "FLIPOD": ("SepTransform.flipod", "SepTransform")},
+    opens=["AdaptaVerif.Model.Sep (SepTransform SepType GapType SepDir Dim SepPair)", "AdaptaVerif.Num (SZ)"],
+    types={"SepTransform": "SepTransform", "SepType": "SepType", "GapType": "GapType", "SepDir": "SepDir", "Dim": "Dim", "double": "SZ"},
+    enums=_SPENUMS,
     # the model has an extra constructor `ident` (no C++ counterpart): the switch is not exhaustive in Lean
-    enum_ctors={"SepTransform": ["SepTransform.ident"] + ["SepTransform." + n for n in _TF]},
-    # members of SepPair that transform() reads and writes: inputs and results of the generated function
-    state_members={"transform": [("xst", "xst", "SepType"), ("yst", "yst", "SepType"), ("xgt", "xgt", "GapType"),
-                                 ("ygt", "ygt", "GapType"), ("xgap", "xgap", "SZ"), ("ygap", "ygap", "SZ")]},
+    enum_ctors={"SepTransform": ["SepTransform.ident"] + ["SepTransform." + n for n in _TF], "SepDir": ["SepDir." + n for n in _SD]},
+    parts=[
+        # members of SepPair that transform() reads and writes: inputs and results of the generated function
+        dict(src="cola/libdialect/constraints.cpp", functions=["transform"], filters={"transform": "SepPair::transform"},
+             state_members={"transform": [("xst", "xst", "SepType"), ("yst", "yst", "SepType"), ("xgt", "xgt", "GapType"),
+                                          ("ygt", "ygt", "GapType"), ("xgap", "xgap", "SZ"), ("ygap", "ygap", "SZ")]}),
+        # the other small methods: `this` is the model's SepPair record (same member names)
+        dict(src="cola/libdialect/constraints.cpp", functions=_SPM, filters={f: "SepPair::" + f for f in _SPM},
+             this_struct=("self", "SepPair", {"xst": ("xst", "SepType"), "yst": ("yst", "SepType"), "xgt": ("xgt", "GapType"),
+                                             "ygt": ("ygt", "GapType"), "xgap": ("xgap", "SZ"), "ygap": ("ygap", "SZ")})),
+    ],
 )
 
 PINDIRS = dict(
